@@ -106,10 +106,7 @@ theorem s2c_main_aux (ts : List Int) (vals : List V) (e0 : Int) (es : List Int) 
     (gv : V → Bool) (hgvdef : gv = fun x => gvals.contains x)
     (hlen : ts.length = vals.length) (hts : ts.Pairwise (· ≤ ·))
     (hE : ((e0 - period) :: e0 :: es).Pairwise (· ≤ ·))
-    (hB : ∃ t ∈ ts, dumpOf (e0 :: es) period t < (N : Int))
-    (hA : ¬ ((∀ t ∈ ts, 0 ≤ dumpOf (e0 :: es) period t) ∧
-              (∃ iv, init = some iv ∧ gv iv = true) ∧
-              (∃ t ∈ ts, dumpOf (e0 :: es) period t = 0))) :
+    (hB : (∃ t ∈ ts, dumpOf (e0 :: es) period t < (N : Int)) ∨ init ≠ none) :
     ∃ c r, sensorToCategorical ts vals (e0 :: es) period tr init gvals rep = .ok c ∧
       rule ts vals (e0 :: es) period tr init gvals = some r ∧ S2COk N c r rep := by
   have hN : 0 < N := by omega
@@ -138,8 +135,8 @@ theorem s2c_main_aux (ts : List Int) (vals : List V) (e0 : Int) (es : List Int) 
   -- the cut
   have hcut : s2cCut ts vals (e0 :: es) period tr =
       match P.getLast? with
-      | none => (W.map (fun e => f e.2), W.map (fun e => e.1.toNat))
-      | some pl => (f pl.2 :: W.map (fun e => f e.2), 0 :: W.map (fun e => e.1.toNat)) := by
+      | none => (W.map (fun e => f e.2), W.map (fun e => e.1.toNat), false)
+      | some pl => (f pl.2 :: W.map (fun e => f e.2), 0 :: W.map (fun e => e.1.toNat), true) := by
     have := cutEv_split N hN tr P W A hP hW hA'
     rw [← hL, hLfst, hLsnd, ← hfdef] at this
     simp only [s2cCut, List.length_cons, ← hNdef]
@@ -181,13 +178,7 @@ theorem s2c_main_aux (ts : List Int) (vals : List V) (e0 : Int) (es : List Int) 
       · exact (hWf e he).1
       · have := hAf e he; omega)
   rw [← List.append_assoc, ← hLf] at hstart
-  -- the guards in terms of the split
-  have hmemL : ∀ e ∈ L, ∃ t ∈ ts, e.1 = dumpOf (e0 :: es) period t := by
-    intro e he
-    rw [hLdef] at he
-    simp only [List.mem_map] at he
-    obtain ⟨p, hp, rfl⟩ := he
-    exact ⟨p.1, (List.of_mem_zip hp).1, (hdo _).symm⟩
+  -- the guard in terms of the split
   have hLmem : ∀ t ∈ ts, ∃ e ∈ L, e.1 = dumpOf (e0 :: es) period t := by
     intro t ht
     have : dumpIndex (e0 :: es) period t ∈ L.map Prod.fst := by rw [hLfst]; exact List.mem_map_of_mem ht
@@ -195,7 +186,8 @@ theorem s2c_main_aux (ts : List Int) (vals : List V) (e0 : Int) (es : List Int) 
     obtain ⟨e, he, hfst⟩ := this
     exact ⟨e, he, by rw [hdo]; exact hfst⟩
   have hsens : ∀ (init : Option V), sensorToCategorical ts vals (e0 :: es) period tr init gvals rep =
-      s2cFinish N (s2cCut ts vals (e0 :: es) period tr).1 (s2cCut ts vals (e0 :: es) period tr).2 init gvals rep := by
+      s2cFinish N (s2cCut ts vals (e0 :: es) period tr).1 (s2cCut ts vals (e0 :: es) period tr).2.1
+        (s2cCut ts vals (e0 :: es) period tr).2.2 init gvals rep := by
     intro init
     have hne : (e0 :: es) ≠ [] := by simp
     simp only [sensorToCategorical, hne, if_false, List.length_cons, ← hNdef]
@@ -221,82 +213,46 @@ theorem s2c_main_aux (ts : List Int) (vals : List V) (e0 : Int) (es : List Int) 
     obtain ⟨c, hc, hok⟩ := hclean (f pl.2) (W.map (fun e => f e.2)) 0 (W.map (fun e => e.1.toNat))
       (by simp only [List.length_map]) hWnS hWnN
     refine ⟨c, _, ?_, hrule init _ (hstart init), hok⟩
-    cases init <;> simp only [s2cFinish, ne_eq, not_true_eq_false, if_false, hc]
+    cases init <;> simp only [s2cFinish, hc]
   | none =>
     have hPnil : P = [] := by simpa using hPl
     subst hPnil
     simp only [hPl] at hstart ⊢
     simp only [List.map_nil, List.getLast?_nil] at hstart
-    -- guard (b): some event lies inside the dumps
-    have hWne : W ≠ [] := by
-      intro hWnil
-      obtain ⟨t, ht, hlt⟩ := hB
-      obtain ⟨e, he, hed⟩ := hLmem t ht
-      rw [hL, hWnil] at he
-      simp only [List.nil_append, List.append_nil] at he
-      have := hA' e he
-      rw [hed] at this
-      omega
-    obtain ⟨w, W', hWeq⟩ := List.exists_cons_of_ne_nil hWne
-    have hw := hW w (by rw [hWeq]; exact List.mem_cons_self ..)
-    have hW'W : ∀ e ∈ W', e ∈ W := fun e he => by rw [hWeq]; exact List.mem_cons_of_mem _ he
-    have hrule' := hrule
-    rw [hWeq] at hWnS hWnN hL hrule' ⊢
-    clear hrule
-    simp only [List.map_cons] at hWnS hWnN hstart hrule' ⊢
-    have hW'S : (W'.map (fun e => e.1.toNat)).Pairwise (· ≤ ·) := (List.pairwise_cons.mp hWnS).2
-    have hW'N : ∀ d ∈ W'.map (fun e => e.1.toNat), d < N :=
-      fun d hd => hWnN d (List.mem_cons_of_mem _ hd)
-    have hwmin : ∀ d ∈ W'.map (fun e => e.1.toNat), w.1.toNat ≤ d := (List.pairwise_cons.mp hWnS).1
-    have hlen' : (W'.map (fun e => f e.2)).length = (W'.map (fun e => e.1.toNat)).length := by
-      simp only [List.length_map]
     cases init with
     | some iv =>
+      -- no prior event, initial value given: it is inserted at dump 0 (whatever the events are)
       replace hstart := hstart (some iv)
       simp only at hstart
-      by_cases hw0 : w.1.toNat = 0
-      · -- first event inside dump 0: the initial value is not inserted; fine unless it is greedy
-        have hng : gv iv = false := by
-          cases hgiv : gv iv with
-          | false => rfl
-          | true =>
-            exfalso
-            apply hA
-            refine ⟨?_, ⟨iv, rfl, hgiv⟩, ?_⟩
-            · intro t ht
-              obtain ⟨e, he, hed⟩ := hLmem t ht
-              rw [← hed]
-              rw [hL] at he
-              simp only [List.nil_append, List.mem_append] at he
-              rcases he with he | he
-              · simp only [List.mem_cons] at he
-                rcases he with rfl | he
-                · exact hw.1
-                · exact (hW e (hW'W e he)).1
-              · have := hA' e he; omega
-            · obtain ⟨t, ht, hwt⟩ := hmemL w (by rw [hL]; simp)
-              exact ⟨t, ht, by rw [← hwt]; omega⟩
-        obtain ⟨c, hc, hok⟩ := hclean (f w.2) (W'.map (fun e => f e.2)) w.1.toNat
-          (W'.map (fun e => e.1.toNat)) hlen' hW'S hW'N
-        refine ⟨c, _, ?_, hrule' _ _ hstart, ?_⟩
-        · simp only [s2cFinish, hw0, ne_eq, not_true_eq_false, if_false]
-          rw [hw0] at hc
-          exact hc
-        · have : ruleS gv N 0 (bestV gv iv) iv
-              ((w.1.toNat :: W'.map (fun e => e.1.toNat)).zip (f w.2 :: W'.map (fun e => f e.2))) =
-              ruleS gv N 0 (bestV gv (f w.2)) (f w.2)
-                ((W'.map (fun e => e.1.toNat)).zip (W'.map (fun e => f e.2))) := by
-            simp only [List.zip_cons_cons, ruleS, hw0, Nat.le_refl, if_true, bestV, hng, Bool.false_eq_true, if_false]
-          rw [this]
-          exact hok
-      · -- initial value inserted at dump 0
-        obtain ⟨c, hc, hok⟩ := hclean iv (f w.2 :: W'.map (fun e => f e.2)) 0
-          (w.1.toNat :: W'.map (fun e => e.1.toNat)) (by simp only [List.length_cons, List.length_map])
-          hWnS hWnN
-        refine ⟨c, _, ?_, hrule' _ _ hstart, hok⟩
-        simp only [s2cFinish, ne_eq, hw0, not_false_eq_true, if_true]
-        exact hc
+      obtain ⟨c, hc, hok⟩ := hclean iv (W.map (fun e => f e.2)) 0 (W.map (fun e => e.1.toNat))
+        (by simp only [List.length_map]) hWnS hWnN
+      refine ⟨c, _, ?_, hrule _ _ hstart, hok⟩
+      simp only [s2cFinish, hc]
     | none =>
+      -- no prior event, no initial value: some event must lie inside the dumps
+      have hWne : W ≠ [] := by
+        intro hWnil
+        rcases hB with hB | hB
+        · obtain ⟨t, ht, hlt⟩ := hB
+          obtain ⟨e, he, hed⟩ := hLmem t ht
+          rw [hL, hWnil] at he
+          simp only [List.nil_append, List.append_nil] at he
+          have := hA' e he
+          rw [hed] at this
+          omega
+        · exact hB rfl
+      obtain ⟨w, W', hWeq⟩ := List.exists_cons_of_ne_nil hWne
+      have hw := hW w (by rw [hWeq]; exact List.mem_cons_self ..)
+      have hrule' := hrule
+      rw [hWeq] at hWnS hWnN hL hrule' ⊢
+      clear hrule
+      simp only [List.map_cons] at hWnS hWnN hstart hrule' ⊢
+      have hW'S : (W'.map (fun e => e.1.toNat)).Pairwise (· ≤ ·) := (List.pairwise_cons.mp hWnS).2
+      have hW'N : ∀ d ∈ W'.map (fun e => e.1.toNat), d < N :=
+        fun d hd => hWnN d (List.mem_cons_of_mem _ hd)
+      have hwmin : ∀ d ∈ W'.map (fun e => e.1.toNat), w.1.toNat ≤ d := (List.pairwise_cons.mp hWnS).1
+      have hlen' : (W'.map (fun e => f e.2)).length = (W'.map (fun e => e.1.toNat)).length := by
+        simp only [List.length_map]
       replace hstart := hstart none
       simp only at hstart
       have hhead : (L.map (fun e => (e.1, f e.2))).head?.map (·.2) = some (f w.2) := by
@@ -338,17 +294,15 @@ theorem s2c_main_aux (ts : List Int) (vals : List V) (e0 : Int) (es : List Int) 
         exact hok
 
 /-- **Main lemma.**  On sorted times the mirror of `sensor_to_categorical` succeeds and its
-    per-dump list is the documented rule, outside the two guarded families. -/
+    per-dump list is the documented rule, as soon as a start value is available without looking
+    past the last dump: an event before the end of the last dump, or an initial value. -/
 theorem s2c_main (ts : List Int) (vals : List V) (e0 : Int) (es : List Int) (period : Int)
     (tr : Option (V → V)) (init : Option V) (gvals : List V) (rep : Bool)
     (hlen : ts.length = vals.length) (hts : ts.Pairwise (· ≤ ·))
     (hE : ((e0 - period) :: e0 :: es).Pairwise (· ≤ ·))
-    (hB : ∃ t ∈ ts, dumpOf (e0 :: es) period t < ((es.length + 1 : Nat) : Int))
-    (hA : ¬ ((∀ t ∈ ts, 0 ≤ dumpOf (e0 :: es) period t) ∧
-              (∃ iv, init = some iv ∧ gvals.contains iv = true) ∧
-              (∃ t ∈ ts, dumpOf (e0 :: es) period t = 0))) :
+    (hB : (∃ t ∈ ts, dumpOf (e0 :: es) period t < ((es.length + 1 : Nat) : Int)) ∨ init ≠ none) :
     ∃ c r, sensorToCategorical ts vals (e0 :: es) period tr init gvals rep = .ok c ∧
       rule ts vals (e0 :: es) period tr init gvals = some r ∧ S2COk (es.length + 1) c r rep :=
-  s2c_main_aux ts vals e0 es period tr init gvals rep _ rfl _ rfl _ rfl hlen hts hE hB hA
+  s2c_main_aux ts vals e0 es period tr init gvals rep _ rfl _ rfl _ rfl hlen hts hE hB
 
 end Categorical
